@@ -19,7 +19,7 @@ struct Job { args: Vec<String>, stdin: Option<String>, /// cwd choices: None = a
 fn run_env(job: &Job, tz: &str, lc: &str, cwd: &Path, extra: bool, now: u64) -> proc::Out {
     let nows = now.to_string();
     let mut env: Vec<(&str, &str)> = vec![("TZ", tz), ("LC_ALL", lc), ("LANG", lc), ("ZERV_VERIF_NOW", &nows)];
-    if extra { env.extend([("COLUMNS", "1"), ("RUST_BACKTRACE", "1"), ("NO_COLOR", "1"), ("HOME", ""), ("TERM", "dumb"), ("LANGUAGE", "tr"), ("SOURCE_DATE_EPOCH", "1"), ("ZERV_TEST", "x"), ("CLICOLOR_FORCE", "1")]); }
+    if extra { env.extend([("COLUMNS", "1"), ("RUST_BACKTRACE", "1"), ("NO_COLOR", "1"), ("HOME", ""), ("TERM", "dumb"), ("LANGUAGE", "de:fr"), ("SOURCE_DATE_EPOCH", "1"), ("ZERV_TEST", "x"), ("CLICOLOR_FORCE", "1")]); }
     zv::run_bin(&job.args, job.stdin.as_deref(), &env, Some(cwd))
 }
 
@@ -38,6 +38,8 @@ fn main() {
         ("r_before", vec![midnight - 7200, midnight - 3600, midnight - 1], vec![Tag { name: "v1.2.3".into(), target: 1, annotated: false }], Head::Branch("main".into()), WorkTree::Clean),
         ("r_after", vec![midnight - 2, midnight - 1, midnight], vec![Tag { name: "v1.2.3".into(), target: 2, annotated: true }, Tag { name: "v1.0.0".into(), target: 0, annotated: false }], Head::Branch("main".into()), WorkTree::Clean),
         ("r_dirty", vec![midnight - 2, midnight - 1, midnight + 1], vec![Tag { name: "1.0.0rc1".into(), target: 0, annotated: false }], Head::Branch("feature/x".into()), WorkTree::Untracked),
+        // detached HEAD: git reports this state through (translatable) messages on some code paths
+        ("r_detached", vec![midnight - 7200, midnight - 3600, midnight - 1], vec![Tag { name: "v1.2.3".into(), target: 0, annotated: false }], Head::Detached(1), WorkTree::Clean),
     ] {
         let mut r = Repo::create(&root, name, &linear, &dates);
         r.set_tags(&tags); r.set_head(&head); r.set_worktree(wt, "f0");
@@ -100,7 +102,8 @@ fn main() {
         }
     }
     let tzs: Vec<&str> = if quick { vec!["UTC", "Pacific/Kiritimati", "Pacific/Pago_Pago"] } else { vec!["UTC", "Pacific/Kiritimati", "Pacific/Pago_Pago", "Asia/Kolkata", "JST-9"] };
-    let lcs: Vec<&str> = if quick { vec!["C", "tr_TR.UTF-8"] } else { vec!["C", "C.utf8", "tr_TR.UTF-8", "de_DE.ISO-8859-1"] };
+    // C.UTF-8 is the one non-"C" locale every system has: with LANGUAGE set, child processes (git) translate their messages
+    let lcs: Vec<&str> = if quick { vec!["C", "C.UTF-8", "tr_TR.UTF-8"] } else { vec!["C", "C.UTF-8", "tr_TR.UTF-8", "de_DE.UTF-8", "de_DE.ISO-8859-1"] };
     let repeats = 2;
     let now2 = now + 3 * 86400 + 7;
     let st = jobs.par_iter().map(|job| {
